@@ -137,7 +137,16 @@ func c10ValueEval(e *Env, v c10Value) {
 			return y.Values[0], true
 		}
 	case "meter":
-		mt := op.Meter{Rat: util.Rat{Num: uint(v.Num), Denom: uint(v.Den)}}
+		mt, merr := op.NewMeter(uint(v.Num), uint(v.Den)) // the constructor text conv uses
+		if merr != nil {
+			if d := v.Den; v.Num >= 1 && v.Num <= 255 && d >= 1 && d <= 128 && d&(d-1) == 0 {
+				fail("C10/value/producer-refuses/meter", "a time signature a MIDI file can state is refused: "+merr.Error())
+				return
+			}
+			// text conv never prints this value: nothing to read back
+			e.R.Outcome("meter outside the producer's domain")
+			return
+		}
 		in.Meter = &mt
 		want = timing.Frac{Num: v.Num, Den: v.Den}.String()
 		get = func(y yInst) (string, bool) {
@@ -147,7 +156,15 @@ func c10ValueEval(e *Env, v c10Value) {
 			return *y.Meter, true
 		}
 	case "bpm":
-		b := op.BPM(v.Num)
+		b, berr := op.NewBPM(uint(v.Num)) // the constructor text conv uses
+		if berr != nil {
+			if v.Num >= 4 && v.Num <= 60000000 {
+				fail("C10/value/producer-refuses/bpm", "a tempo a MIDI file can state is refused: "+berr.Error())
+				return
+			}
+			e.R.Outcome("bpm outside the producer's domain")
+			return
+		}
 		in.BPM = &b
 		want = fmt.Sprint(v.Num)
 		get = func(y yInst) (string, bool) {
